@@ -253,6 +253,9 @@ pub enum FaultGen {
     SyncAndUnlink,
     /// `Io` plus failing chunk-file creations on the caller thread
     IoAndCreate,
+    /// faults that must not change the journal (failed syncs, short writes, EINTR) plus failing
+    /// chunk-file creations on the caller thread
+    SyncAndCreate,
 }
 
 impl Profile {
@@ -413,7 +416,7 @@ pub fn op_strategy(p: &Profile) -> BoxedStrategy<OpSpec> {
 pub fn fault_strategy(g: FaultGen) -> BoxedStrategy<Vec<FaultRule>> {
     match g {
         FaultGen::None => Just(vec![]).boxed(),
-        FaultGen::Io | FaultGen::SyncOnly | FaultGen::SyncAndUnlink | FaultGen::IoAndCreate => {
+        FaultGen::Io | FaultGen::SyncOnly | FaultGen::SyncAndUnlink | FaultGen::IoAndCreate | FaultGen::SyncAndCreate => {
             let sync_rule = (0u32..12, prop_oneof![4 => Just(1u32), 3 => Just(2u32), 1 => Just(3u32), 1 => Just(u32::MAX / 2)], prop_oneof![Just(FaultKind::Eio), Just(FaultKind::Enospc)])
                 .prop_map(|(nth, count, kind)| FaultRule { target: FaultTarget::WorkerSync, nth, count, kind });
             let short_rule = (0u32..12, 1u32..3, any::<u8>()).prop_map(|(nth, count, k)| FaultRule { target: FaultTarget::WorkerWrite, nth, count, kind: FaultKind::Short(k) });
@@ -426,8 +429,10 @@ pub fn fault_strategy(g: FaultGen) -> BoxedStrategy<Vec<FaultRule>> {
             let create_rule = (1u32..8, prop_oneof![3 => Just(1u32), 1 => Just(2u32)]).prop_map(|(nth, count)| FaultRule { target: FaultTarget::CallerCreate, nth, count, kind: FaultKind::Enospc });
             let one: BoxedStrategy<FaultRule> = if g == FaultGen::IoAndCreate {
                 prop_oneof![5 => sync_rule, 2 => short_rule, 1 => eintr_rule, 2 => write_rule, 2 => torn_rule, 4 => create_rule].boxed()
+            } else if g == FaultGen::SyncAndCreate {
+                prop_oneof![5 => sync_rule, 2 => short_rule, 1 => eintr_rule, 4 => create_rule].boxed()
             } else if g == FaultGen::SyncAndUnlink {
-                prop_oneof![5 => sync_rule, 2 => short_rule, 1 => eintr_rule, 3 => unlink_rule].boxed()
+                prop_oneof![5 => sync_rule, 2 => short_rule, 1 => eintr_rule, 3 => unlink_rule, 2 => write_rule, 1 => torn_rule].boxed()
             } else if g == FaultGen::Io {
                 prop_oneof![5 => sync_rule, 2 => short_rule, 1 => eintr_rule, 2 => write_rule, 2 => torn_rule].boxed()
             } else {
